@@ -6,10 +6,14 @@
 //! A batch = one workload (call lists for T threads) drawn from the
 //! simulator's PRNG stream ("C19-threads", batch index); each batch is run
 //! for N iterations under shuttle's seeded random scheduler and N under
-//! PCT (depth 3). rl2tp has no synchronisation primitive, so shuttle can
-//! only switch threads between codec calls (call-granularity
-//! interleavings); the scheduling points are the `sleep(0)` between calls
-//! and the results mutex.
+//! PCT (depth 3). rl2tp has no synchronisation primitive of its own, so the
+//! scheduling points come from the seams: decoders read through a
+//! `HookReader` and encoders write through a `HookWriter` whose every trait
+//! method is a scheduling point (`sleep(0)`), exactly where a real caller's
+//! reader or writer may block. Thread switches therefore happen *inside*
+//! decode and encode calls (at every reader/writer call), between calls,
+//! and at the results mutex. hide / reveal / get_length / Display have no
+//! seam and are atomic with respect to the schedule.
 //!
 //! Output (stdout), one JSON object per line:
 //!   {"batch":k,"threads":t,"calls":n,"iterations":i,"scheduler":"random"}
@@ -17,7 +21,7 @@
 
 use rl2tp_dst::core::{install_silent_hook, Failure};
 use rl2tp_dst::gen::Swarm;
-use rl2tp_dst::props::c19::{gen_calls, perform, Call};
+use rl2tp_dst::props::c19::{gen_calls, perform, perform_hooked, Call};
 use rl2tp_dst::rng::{mix2, run_seed, Rng};
 use serde_json::json;
 use shuttle::scheduler::{PctScheduler, RandomScheduler, ReplayScheduler};
@@ -49,10 +53,18 @@ fn workload(seed: u64, batch: u64) -> Workload {
         // sometimes the same call on several threads at once
         per_thread[i % threads].push((i, c));
     }
-    if rng.bool() {
-        let (i, c) = per_thread[0][0].clone();
-        for t in 1..threads {
-            per_thread[t].push((i, c.clone()));
+    // the same call on every thread at once (identical headers, identical
+    // inputs): the case in which a shared scratch value is most likely to
+    // look right by accident and go wrong under an interleaving
+    if rng.chance(2, 3) {
+        let pick = per_thread
+            .iter()
+            .flatten()
+            .find(|(_, c)| matches!(c, Call::EncodeMsg(_) | Call::Decode { .. }))
+            .cloned()
+            .unwrap_or_else(|| per_thread[0][0].clone());
+        for t in 0..threads {
+            per_thread[t].push(pick.clone());
         }
     }
     Workload {
@@ -70,7 +82,8 @@ fn scenario(w: &Arc<Workload>) {
         let results = results.clone();
         handles.push(shuttle::thread::spawn(move || {
             for (i, c) in &w.per_thread[t] {
-                let r = perform(c);
+                let hook = || shuttle::thread::sleep(std::time::Duration::from_millis(0));
+                let r = perform_hooked(c, &hook);
                 results.lock().unwrap().push((*i, r));
                 // a scheduling point between calls (not yield_now: PCT
                 // treats yields as a request to deprioritise)
